@@ -1548,8 +1548,12 @@ func (f *e1func) doReturn(rs *ast.ReturnStmt, cur []*fstate, sites *[]*e1site, p
 		if c, ok := unparen(rs.Results[f.errIdx]).(*ast.CallExpr); ok {
 			if tv, ok := f.info.Types[c.Fun]; !(ok && tv.IsType()) {
 				ct := f.tb.callTerm(c)
-				if !f.neverNil(ct, nil) && nres == 1 {
-					tail = ct
+				if !f.neverNil(ct, nil) {
+					if nres == 1 {
+						tail = ct
+					} else if idx, _, n := f.callStatusIdx(c); n == 1 && idx == 0 {
+						tail = ct // return x, check(y): the status is the outcome of that call
+					}
 				}
 			}
 		}
